@@ -226,6 +226,10 @@ def generate(run_index, seed, tier):
             ops.append({"op": "backup", "name": g.pick(names), "via": g.pick(["cli", "api"]), "sel": _gen_selection(g)})
         else:
             ops.append({"op": "reopen"})
+    if g.chance(0.1):
+        # a backup that recorded no file at all (its selection matched nothing) is a backup: the name is taken
+        ops[0]["sel"] = {"suffix": ["nosuchsuffix"]}
+        ops.insert(1, {"op": "backup", "name": names[0], "via": g.pick(["api", "cli"]), "sel": {}})
     if g.chance(0.12):
         # two backups of different content, then a script that works from both of them in one process
         ev = [q for q in paths if q.endswith("_events.tsv")]
